@@ -28,6 +28,10 @@ pub mod exec_ffi;
 ///
 /// This will also us detect whenever there is a change in the underlying C representation
 pub fn sanity_checks() -> bool {
+    // Miri cannot read the layout constants exported by the C library.
+    #[cfg(miri)]
+    return true;
+    #[cfg(not(miri))]
     sanity_check_report().is_empty()
 }
 
